@@ -25,9 +25,9 @@ import (
 	"net/netip"
 	"os"
 	"os/exec"
+	"os/signal"
 	"path/filepath"
 	"regexp"
-	"os/signal"
 	"sort"
 	"strconv"
 	"strings"
